@@ -21,6 +21,7 @@ Extraction "model.ml"
   sessionless_command_packet payload_packet session_command_packet receive
   parse_records retrieve_cipher_suites retrieve_chunks get_entity_instances get_sensor_info walk new_sensor_reader read_sensor
   serve_chunks serve_dcmi serve_sdr convert_reading
+  rt_message rt_v1session rt_v2session rt_rakp1 rt_aes
   put_le32 cbc_encrypt cbc_decrypt run_decode aes_dec aes_enc integrity_sign hmac_alg auth_params
   decode_rmcp rmcp_zero show_rmcp decode_selector selector_zero show_selector
   decode_v1session v1session_zero show_v1session decode_message message_zero show_message
